@@ -222,6 +222,10 @@ def stores_through(body, o):
 def param(body, i):
     """name of the i-th parameter (0-based, `self` included) of a fn body or of the coroutine body of an async fn.
     Rules use positions, not spellings, so that renaming a parameter is not an alarm."""
+    from engine.anl.origin import baseline_params
+    base = baseline_params().get(body.name)
+    if base and i < len(base) and base[i]:
+        return base[i]     # origin terms spell parameters as on the reference tree (translated by position)
     if body.is_coroutine:
         return body.upvars.get(i)
     return body.debug.get(i + 1)
